@@ -45,10 +45,10 @@ I32 = 2147483647
 
 
 def P(p, dom, *, lo=None, hi=None, q=0, edgeDoc=False, none=False, noneReads="None", xp=None, coupled=(), weak=(),
-      needs=(), ro=False, typ=(), enum=None, mod=None, src="", step=None, strict=False, draw=None):
+      needs=(), ro=False, typ=(), enum=None, mod=None, src="", step=None, strict=False, draw=None, nonempty=False):
     return dict(p=p, dom=dom, lo=lo, hi=hi, q=F(q), step=F(step) if step is not None else (F(q) if q else F(1)),
                 edgeDoc=edgeDoc, none=none, noneReads=noneReads, xp=xp, coupled=list(coupled), weak=list(weak),
-                needs=list(needs), ro=ro, typ=list(typ), enum=enum, mod=mod, src=src, strict=strict, draw=draw)
+                needs=list(needs), ro=ro, typ=list(typ), enum=enum, mod=mod, src=src, strict=strict, draw=draw, nonempty=nonempty)
 
 
 def RO(p, **kw):
@@ -218,6 +218,15 @@ KINDS = [
     ], skipped={"text": "C04"}),
     dict(kind="RunFont", classes=["Font"], deck="shapes", path="slides[0].shapes[3].text_frame.paragraphs[0].runs[0].font", corpus="runfont", props=font_props()),
     dict(kind="ParagraphFont", classes=["Font"], deck="shapes", path="slides[0].shapes[3].text_frame.paragraphs[0].font", corpus="parafont", props=font_props()),
+    # relationship-valued string properties: the reading is the target of an external relationship of the part.  Two objects given the
+    # same address share ONE relationship (relate_to re-uses it) - the twin observation is what makes these kinds worth having
+    dict(kind="RunHyperlink", classes=["_Hyperlink"], deck="shapes", path="slides[0].shapes[3].text_frame.paragraphs[0].runs[0].hyperlink",
+         corpus="-", props=[
+        P("address", "str", none=True, nonempty=True, xp="a:hlinkClick", typ=("https://example.invalid/a?x=1&y=2", "mailto:someone@example.invalid"),
+          src="_Hyperlink.address: str or None; None removes the hyperlink ('' is not documented)")]),
+    dict(kind="ShapeHyperlink", classes=["Hyperlink"], deck="shapes", path="slides[0].shapes[2].click_action.hyperlink", corpus="-", props=[
+        P("address", "str", none=True, nonempty=True, xp="a:hlinkClick", typ=("https://example.invalid/a?x=1&y=2", "file:///C:/x%20y.pptx"),
+          src="Hyperlink.address: str or None; None removes the hyperlink ('' is not documented)")]),
     dict(kind="FontColor", classes=["ColorFormat"], deck="shapes", path="slides[0].shapes[3].text_frame.paragraphs[0].runs[0].font.color", corpus="fontcolor",
          props=color_props()),
     dict(kind="SolidFillColor", classes=["ColorFormat", "FillFormat"], deck="shapes", path="slides[0].shapes[9].fill", corpus="solidfill",
@@ -343,8 +352,7 @@ OUT_OF_SCOPE.update({("CorePropertiesPart", n): "C18" for n in (
     "author", "category", "comments", "content_status", "created", "identifier", "keywords", "language", "last_modified_by",
     "last_printed", "modified", "revision", "subject", "title", "version")})
 # relationship-valued (not value properties: the reading is a target object / URL held in the part's relationships; C02 covers them)
-OUT_OF_SCOPE.update({("ActionSetting", "target_slide"): "relationship-valued (C02)", ("Hyperlink", "address"): "relationship-valued (C02)",
-                     ("_Hyperlink", "address"): "relationship-valued (C02)"})
+OUT_OF_SCOPE.update({("ActionSetting", "target_slide"): "relationship-valued, the value is an object (C02)"})
 
 
 def by_kind() -> dict:
